@@ -3,6 +3,7 @@
   Model: AmiscModel.Interp (`basis`, `predictT`, `miscSum`), mirrored from `Lagrange.predict` / `Component.predict`.
 -/
 import AmiscModel.Interp
+import AmiscProofs.TensorDeriv
 
 namespace Amisc.C05
 
@@ -59,5 +60,30 @@ theorem output_independent (table : List (List Q)) (sizes : List Nat) (rows rows
     rw [List.getElem?_eq_getElem hn1, List.getElem?_eq_getElem hn2] at this
     simp only [Option.getD_some] at this
     rw [this]
+
+
+/-! ## in Mathlib terms: one term IS the tensor-product Lagrange interpolant of the model's evaluations -/
+
+open Amisc.LL Amisc.Tensor Amisc.TD Polynomial Finset
+
+/-- the prediction of one index is Σ over tensor nodes of (Π_d ℓ_{d,j_d}(x_d)) · y_j, with `ℓ` Mathlib's Lagrange basis
+    polynomials of the state's grids — for any data, output column and point -/
+theorem term_is_tensor_lagrange_interpolant (st : LState) (x : List Q) (hd : st.grids.length = x.length)
+    (hgood : ∀ k, k < x.length → GoodDim (st.grids.getD k []) (st.wts.getD k []))
+    (rows : List (List Q)) (o : ℕ) (ho : o < (rows.head?.map List.length).getD 0) :
+    (predictT 0 st rows x).getD o 0 =
+      (((prodIdx (st.grids.map List.length)).zip rows).map fun jr => lagCoef st x jr.1 * jr.2.getD o 0).sum :=
+  predictT_is_lagrange_interpolant st x hd hgood rows o ho
+
+/-- each term reproduces its training data: at the grid point of tensor node `n` it returns data row `n` -/
+theorem term_reproduces_training_data (st : LState) (x : List Q) (hd : st.grids.length = x.length)
+    (hgood : ∀ k, k < x.length → GoodDim (st.grids.getD k []) (st.wts.getD k []))
+    (rows : List (List Q)) (o : ℕ) (ho : o < (rows.head?.map List.length).getD 0)
+    (hrows : rows.length = (prodIdx (st.grids.map List.length)).length)
+    (n : ℕ) (hn : n < (prodIdx (st.grids.map List.length)).length)
+    (hx : ∀ k, k < x.length →
+      x.getD k 0 = nodeFn (st.grids.getD k []) (((prodIdx (st.grids.map List.length))[n]).getD k 0)) :
+    (predictT 0 st rows x).getD o 0 = (rows.getD n []).getD o 0 :=
+  predictT_at_node st x hd hgood rows o ho hrows n hn hx
 
 end Amisc.C05
